@@ -121,4 +121,29 @@ example : (relayRun { loLevel := true } { out := true } [.server 7 1, .local 255
     results (relayRun { loLevel := true } { out := true } [.server 7 1, .local 255, .server 9 0]).2 = [(7, true), (9, true)] := by
   decide
 
+/-! ### the local switch request (supla_esp_gpio_relay_switch) -/
+
+/-- **C06.S1** a toggle request on a plain channel, or on a staircase channel with button type 'toggle', inverts the relay -/
+theorem c06_switch_toggles (stair : Bool) (stype : Nat) (isOn : Bool) (h : stair = false ∨ stype ≠ 0) :
+    switchHi stair stype 255 isOn = (if isOn then 0 else 1) := by
+  unfold switchHi
+  rcases h with h | h
+  · simp [h]
+  · simp [h]
+
+/-- **C06.S2** on a staircase channel with button type 'reset' every non-zero request switches on (and so re-arms the time),
+    a request for 0 switches off -/
+theorem c06_switch_staircase_reset (hi : Nat) (isOn : Bool) :
+    switchHi true 0 hi isOn = (if hi = 0 then 0 else 1) := by
+  unfold switchHi
+  by_cases h : hi = 0
+  · simp [h]
+  · simp [h]
+
+/-- **C06.S3** an explicit request (0 or 1) is what relay_hi gets, staircase or not -/
+theorem c06_switch_explicit (stair : Bool) (stype : Nat) (hi : Nat) (isOn : Bool) (h : hi = 0 ∨ hi = 1) :
+    switchHi stair stype hi isOn = hi := by
+  unfold switchHi
+  rcases h with h | h <;> simp [h]
+
 end SuplaVerif.C06
